@@ -37,4 +37,4 @@ def one(sid):
     lines = [l for l in r.stdout.splitlines() if l.startswith(sid + ' ')]
     return lines[-1] if lines else '%s {"*": ["CHECK-ERROR rc=%d %s"]}' % (sid, r.returncode, (r.stdout + r.stderr)[-300:].replace('\n', ' ').replace('"', "'"))
 with concurrent.futures.ThreadPoolExecutor(max_workers=J) as ex:
-    for line in ex.map(one, args): print(line, flush=True)
+    for fu in concurrent.futures.as_completed([ex.submit(one, a) for a in args]): print(fu.result(), flush=True)
